@@ -144,6 +144,10 @@ func HasLessPrecedence(current Token, next Token) bool {
 	// left associative. If we see another of the same type don't add onto the pile.
 	// right associative would return true here.
 	if current.Typ == next.Typ {
+		// prefix operators nest to the right (e.g. NOT NOT a) so the inner one has to be shifted
+		if current.Typ == TNot || current.Typ == TPlus || current.Typ == TMinus {
+			return true
+		}
 		return false
 	}
 
